@@ -3,14 +3,17 @@
   Property theorems only (helper lemmas live in RsjProofs/Num.lean, RsjProofs/Dec*.lean).
 
   What is proved here is about the model (`RsjModel/Num.lean`, `RsjModel/Dec.lean`); that the
-  model's producers gate exactly where /repo does is tied by `C06_every_site_modelled`
-  (generated from the source on every run) and by the differential run of checks/c06.py.
-  That Rust's `str::parse::<f64>` / `Display for f64` satisfy the specifications
-  `isNearestEven` / `isShortestRT`, and that binary64 arithmetic satisfies `Lawful`, is
-  validated by the check, not proved (trusted base).
+  model's producers gate exactly where /repo does is tied by `C06_every_site_modelled` /
+  `C06_gate_arms` (generated from the source on every run) and by the differential run of
+  checks/c06.py.  The model's own rounding (`roundNE`) is proved to be the unique
+  nearest-even rounding (`C06_roundNE_correct`, `C06_nearest_even_unique`).  That Rust's
+  `str::parse::<f64>` / `Display for f64` satisfy the specifications `isNearestEven` /
+  `isShortestRT`, and that binary64 arithmetic satisfies `Lawful`, is validated by the
+  check (against the proved `roundNE` and against Python), not proved (trusted base).
 -/
 import RsjModel.NumberSites
 import RsjProofs.Num
+import RsjProofs.NumToy
 import RsjProofs.Dec
 import RsjProofs.DecRound
 namespace Rsj.Num
@@ -67,99 +70,11 @@ theorem C06_every_site_modelled :
       (s.mapped ∈ producerNames ∨ s.mapped ∈ siteClasses) ∧
       (s.mapped ∈ siteGated → s.gated = true) := by decide
 
+/-- The gate of the source has exactly the arms the model's `gate` implements: NaN ↦
+    `NumberNan`, infinite ↦ `NumberOverflow`, zero / subnormal / normal ↦ accepted. -/
+theorem C06_gate_arms : NumberSites.gateArms = gateSpec := by decide
+
 /-! ### non-vacuity: a lawful algebra with overflow (bounded integers) -/
-
-inductive Toy where
-  | fin (i : Int)
-  | inf
-  | nan
-deriving DecidableEq, Repr
-
-def toyMk (i : Int) : Toy := if -1000 ≤ i ∧ i ≤ 1000 then .fin i else .inf
-
-def toyBin (f : Int → Int → Int) : Toy → Toy → Toy
-  | .fin a, .fin b => toyMk (f a b)
-  | .nan, _ => .nan
-  | _, .nan => .nan
-  | _, _ => .inf
-
-def toyAlg : FloatAlg Toy where
-  add := toyBin (· + ·)
-  sub := toyBin (· - ·)
-  mul := toyBin (· * ·)
-  div := fun a b => match a, b with
-    | .fin a, .fin b => if b = 0 then .nan else .fin (a / b)
-    | _, _ => .nan
-  rem := fun a b => match a, b with
-    | .fin a, .fin b => if b = 0 then .nan else .fin (a % b)
-    | _, _ => .nan
-  neg := fun a => match a with | .fin a => .fin (-a) | x => x
-  floor := id
-  ceil := id
-  sqrt := fun _ => .nan
-  exp := fun _ => .inf
-  log := fun _ => .nan
-  log2 := fun _ => .nan
-  log10 := fun _ => .nan
-  sin := fun _ => .fin 0
-  cos := fun _ => .fin 1
-  tan := fun _ => .fin 0
-  asin := fun _ => .nan
-  acos := fun _ => .nan
-  atan := fun _ => .fin 0
-  pow := fun _ _ => .inf
-  atan2 := fun _ _ => .fin 0
-  hypot := toyBin (fun a b => a.natAbs + b.natAbs)
-  toRadians := id
-  toDegrees := toyBin (· * ·) (.fin 57)
-  mantissa := id
-  exponent := fun _ => 0
-  ofInt := .fin
-  ofDec := fun neg n e => toyMk ((if neg then -1 else 1) * (n : Int) * 10 ^ e.toNat)
-  toInt := fun a => match a with | .fin a => a | _ => 0
-  lt := fun a b => match a, b with | .fin a, .fin b => decide (a < b) | _, _ => false
-  partialCmp := fun a b => match a, b with
-    | .fin a, .fin b => some (compare a b)
-    | .nan, _ => none
-    | _, .nan => none
-    | .inf, .inf => some .eq
-    | .inf, _ => some .gt
-    | _, .inf => some .lt
-  eqZero := fun a => a == .fin 0
-  signNeg := fun a => match a with | .fin a => decide (a < 0) | _ => false
-  isNaN := fun a => a == .nan
-  isInf := fun a => a == .inf
-  pi := .fin 3
-
-theorem toy_fin_of_finite {x : Toy} (h : Finite toyAlg x) : ∃ i, x = .fin i := by
-  cases x with
-  | fin i => exact ⟨i, rfl⟩
-  | inf => exact absurd h.2 (by decide)
-  | nan => exact absurd h.1 (by decide)
-
-theorem toy_lawful : Lawful toyAlg where
-  neg_finite := by
-    intro x hx; obtain ⟨i, rfl⟩ := toy_fin_of_finite hx; exact ⟨rfl, rfl⟩
-  floor_finite := fun _ h => h
-  ceil_finite := fun _ h => h
-  mantissa_finite := fun _ h => h
-  exponent_i16 := by
-    intro x
-    show (-32768 : Int) ≤ 0 ∧ (0 : Int) ≤ 32767
-    omega
-  ofInt_finite := fun _ _ _ => ⟨rfl, rfl⟩
-  div_count_finite := by
-    intro x n hx h1 _
-    obtain ⟨i, rfl⟩ := toy_fin_of_finite hx
-    show Finite toyAlg (if (n : Int) = 0 then Toy.nan else Toy.fin (i / n))
-    have : (n : Int) ≠ 0 := by omega
-    rw [if_neg this]; exact ⟨rfl, rfl⟩
-  pi_finite := ⟨rfl, rfl⟩
-  partialCmp_some := by
-    intro x y hx hy
-    cases x <;> cases y <;> first | rfl | exact absurd hx (by decide) | exact absurd hy (by decide)
-
-deriving instance DecidableEq for Except
 
 /-- The hypotheses of `C06_producers_finite` are satisfiable, and the gate matters: in the
     lawful toy algebra a fold over finite values overflows in the middle and is reported,
@@ -222,43 +137,12 @@ theorem C06_exp_overflow_iff (acc : Acc) :
       (acc.explicitExp = none ∨ ∃ E : Nat, acc.explicitExp = some E ∧
         (E > 2 ^ 63 - 1 ∨
          (if acc.expNeg then acc.implicitExp - (E : Int) else acc.implicitExp + (E : Int)) < -(2 ^ 63) ∨
-         (if acc.expNeg then acc.implicitExp - (E : Int) else acc.implicitExp + (E : Int)) > 2 ^ 63 - 1)) := by
-  unfold finish I64_MAX
-  cases hE : acc.explicitExp with
-  | none => simp
-  | some E =>
-    simp only [Option.some.injEq, exists_eq_left', false_or, reduceCtorEq]
-    by_cases h1 : E > 2 ^ 63 - 1
-    · simp [h1]
-    · simp only [h1, if_false, false_or]
-      cases hn : acc.expNeg
-      · simp only [Bool.false_eq_true, if_false]
-        by_cases hP : acc.implicitExp + (E : Int) < -(2 ^ 63) ∨ acc.implicitExp + (E : Int) > 2 ^ 63 - 1
-        · rw [if_pos hP]; exact ⟨fun _ => hP, fun _ => rfl⟩
-        · rw [if_neg hP]; exact ⟨fun h => (by cases h), fun h => absurd h hP⟩
-      · simp only [if_true]
-        by_cases hP : acc.implicitExp - (E : Int) < -(2 ^ 63) ∨ acc.implicitExp - (E : Int) > 2 ^ 63 - 1
-        · rw [if_pos hP]; exact ⟨fun _ => hP, fun _ => rfl⟩
-        · rw [if_neg hP]; exact ⟨fun h => (by cases h), fun h => absurd h hP⟩
+         (if acc.expNeg then acc.implicitExp - (E : Int) else acc.implicitExp + (E : Int)) > 2 ^ 63 - 1)) :=
+  finish_expOverflow_iff acc
 
 /-- The only error `finish` can report is `ExpOverflow`. -/
-theorem C06_finish_errors (acc : Acc) (e : LexErr) (h : finish acc = .error e) : e = .expOverflow := by
-  unfold finish at h
-  split at h
-  · cases h; rfl
-  · next E hE =>
-    by_cases hgt : E > I64_MAX
-    · simp only [hgt, if_true] at h; cases h; rfl
-    · simp only [hgt, if_false] at h
-      cases hn : acc.expNeg
-      · simp only [hn, Bool.false_eq_true, if_false] at h
-        split at h
-        · cases h; rfl
-        · cases h
-      · simp only [hn, if_true] at h
-        split at h
-        · cases h; rfl
-        · cases h
+theorem C06_finish_errors (acc : Acc) (e : LexErr) (h : finish acc = .error e) : e = .expOverflow :=
+  finish_errors acc e h
 
 /-! ### rounding -/
 
@@ -268,34 +152,43 @@ theorem C06_nearest_even_unique {num den b1 b2 : Nat}
     (h1 : isNearestEven num den b1 = true) (h2 : isNearestEven num den b2 = true) : b1 = b2 :=
   nearestEven_unique h1 h2
 
-/-- Consequently a decimal that is the nearest-even pre-image of two different doubles does
-    not exist: "reads back as the same double" in `isShortestRT` is well defined. -/
-theorem C06_round_functional {num den b : Nat} (h : isNearestEven num den b = true)
-    (hr : isNearestEven num den (roundNE num den) = true) : roundNE num den = b :=
-  nearestEven_unique hr h
+/-- **C06 roundNE_correct.** The executable rounding function of the model satisfies the
+    specification, for every rational: together with uniqueness, `roundNE num den` is *the*
+    correctly rounded double of `num / den` (or the overflow marker). -/
+theorem C06_roundNE_correct (num den : Nat) (hden : 0 < den) :
+    isNearestEven num den (roundNE num den) = true :=
+  roundNE_spec num den hden
 
-/-- NOT PROVED (validated by checks/c06.py against Python's correctly rounded
-    `Fraction -> float` on random rationals, midpoints and decimal literals): the executable
-    `roundNE` always satisfies the specification.  Missing: correctness of `floorBits`
-    (`Nat.log2` bracket) — only needed for the driver, no theorem above depends on it. -/
-def C06_roundNE_correct_full : Prop :=
-  ∀ num den : Nat, 0 < den → isNearestEven num den (roundNE num den) = true
+/-- Hence `isNearestEven num den ·` holds for exactly one bit pattern, the computed one:
+    "the correctly rounded double of a decimal text" and "reads back as the same double"
+    (`isShortestRT`) are well defined. -/
+theorem C06_nearest_even_iff (num den b : Nat) (hden : 0 < den) :
+    isNearestEven num den b = true ↔ b = roundNE num den :=
+  ⟨fun h => nearestEven_unique h (roundNE_spec num den hden),
+   fun h => h ▸ roundNE_spec num den hden⟩
 
-/-- Proved part: if either candidate of `roundNE` is the nearest-even image, `roundNE` returns it. -/
-theorem C06_roundNE_correct_partial {num den b : Nat} (h : isNearestEven num den b = true)
-    (hb : b = floorBits num den ∨ b = floorBits num den + 1) : roundNE num den = b := by
-  unfold roundNE
-  dsimp only
-  split
-  · next hf => exact nearestEven_unique hf h
-  · next hf =>
-    rcases hb with rfl | rfl
-    · exact absurd h hf
-    · rfl
+/-- NOT PROVED in full (the two shortcuts of `roundDec` for exponents beyond ±400, taken so
+    that the driver never builds `10^(10^18)`, are justified on paper: `n ≥ 1, e > 400 ⇒
+    n·10^e ≥ 2^1024`, and `n·10^e < 10^-400 < 2^-1075 ⇒` rounds to 0; they are validated by
+    checks/c06.py against Python).  Full statement: -/
+def C06_roundDec_correct_full : Prop :=
+  ∀ (n : Nat) (e : Int), isNearestEven (decFrac n e).1 (decFrac n e).2 (roundDec n e) = true
+
+/-- Proved part: outside the two shortcuts `roundDec` is `roundNE` of the exact fraction. -/
+theorem C06_roundDec_correct_partial (n : Nat) (e : Int) (hn : n ≠ 0) (h1 : e ≤ 400)
+    (h2 : -400 ≤ e + (numDigits n : Int)) :
+    isNearestEven (decFrac n e).1 (decFrac n e).2 (roundDec n e) = true := by
+  unfold roundDec decFrac
+  have c1 : ¬ e > 400 := by omega
+  have c2 : ¬ e + (numDigits n : Int) < -400 := by omega
+  simp only [hn, c1, c2, if_false]
+  by_cases he : e ≥ 0
+  · simp only [he, if_true]
+    exact roundNE_spec _ _ (by omega)
+  · simp only [he, if_false]
+    exact roundNE_spec _ _ (Nat.pow_pos (by omega))
 
 /-! ### non-vacuity -/
-
-deriving instance DecidableEq for Except
 
 example : lexNumber "1_000.5e-3".toList = .ok ([1, 0, 0, 0, 5], -4, []) := by decide
 example : literalValue "1_000.5e-3".toList = (10005, -4) := by decide
@@ -333,6 +226,8 @@ open Rsj.Num in
 #print axioms C06_no_nan_reaches_compare
 open Rsj.Num in
 #print axioms C06_every_site_modelled
+open Rsj.Num in
+#print axioms C06_gate_arms
 open Rsj.Dec in
 #print axioms C06_lex_number_value
 open Rsj.Dec in
@@ -346,6 +241,8 @@ open Rsj.Dec in
 open Rsj.Dec in
 #print axioms C06_nearest_even_unique
 open Rsj.Dec in
-#print axioms C06_round_functional
+#print axioms C06_roundNE_correct
 open Rsj.Dec in
-#print axioms C06_roundNE_correct_partial
+#print axioms C06_nearest_even_iff
+open Rsj.Dec in
+#print axioms C06_roundDec_correct_partial
